@@ -86,8 +86,8 @@ def name_classes(name: str):
 # ---------------------------------------------------------------- contents
 
 TEXTURES = ["random", "zeros", "period", "text", "x86", "arm"]
-BOUNDARY_LENGTHS = [0, 1, 15, 16, 17, 31, 32, 33, 255, 256, 4095, 4096, 4097, 32767, 32768, 32769, 65535, 65536, 65537]
-BIG_LENGTHS = [(1 << 20) - 1, 1 << 20, (1 << 20) + 1, 2 * (1 << 20) + 1]
+BOUNDARY_LENGTHS = [0, 1, 15, 16, 17, 31, 32, 33, 255, 256, 4095, 4096, 4097, 32767, 32768, 32769, 65535, 65536, 65537, 16383, 16384, 16385]
+BIG_LENGTHS = [(1 << 20) - 1, 1 << 20, (1 << 20) + 1, 2 * (1 << 20) + 1, 2097151, 2097152, 2097153]
 
 
 def expand(desc) -> bytes:
